@@ -19,12 +19,15 @@ INVS = ["HookAtMostOnce", "ClosedIsClean", "HookMeansClosed", "NoInventedValue",
 
 
 class Fixture(object):
-    def __init__(self, fault=None, frag=None, timeout=None, log_events=True, b_serve_all=False):
+    def __init__(self, fault=None, frag=None, timeout=None, log_events=True, b_serve_all=False, warm=False):
         import rpyc
         fx = self
         self.hooks = {"A": 0, "B": 0}
         self.fault = fault          # (call index, kind) kind in error|eof
         self.fault_fired = None
+        self.white = True
+        self.base = 0
+        self.warming = False
         self.frag = frag
         self.events = []
         self.ops = []               # (callno, side, op) of every transport call
@@ -58,17 +61,41 @@ class Fixture(object):
 
         cfg = {"sync_request_timeout": timeout}
         self.pair = p = Pair(Svc("A"), Svc("B"), config_a=dict(cfg), config_b=dict(cfg), transport="socket",
-                             script=self.script, serve_eof=True, serve_all_sides=("B",) if b_serve_all else ())
+                             script=self.script, serve_eof=True, serve_all_sides=("B",) if b_serve_all else (),
+                             prepare=self._wrap_conn)
         self.simtime = sim.SimTime(p.sched)
-        self.white = True
-        for side in (p.a, p.b):
-            self._wrap(side)
+        if warm:
+            # first contact (GETROOT, and the INSPECT round trip made from inside the unboxing of the root reference) is a nested
+            # exchange the teardown specification does not model: workloads whose logs go to TLC start after it
+            self.warming = True
+            try:
+                for side in (p.a, p.b):
+                    if side.name not in p.serve_all_sides:
+                        side.call(lambda c=side.conn: c.root)
+            finally:
+                self.warming = False
+            self.base = self.last_callno
+            del self.ops[:]
+            del self.events[:]
 
     # -- scripted transport
+    last_callno = 0
+
     def script(self, sock, op, callno, arg):
+        self.last_callno = callno
+        if self.warming:
+            return ("data", self.frag) if (self.frag and op == "recv") else (("accept", self.frag) if (self.frag and op == "send") else None)
+        callno = callno - self.base
         self.ops.append((callno, sock.name, op))
         f = self.fault
-        if f is not None and callno == f[0] and op in ("recv", "send") and self.fault_fired is None:
+        if f is not None and callno == f[0] and op == "poll" and f[1] == "pollerr" and self.fault_fired is None and \
+                self.depth.get(sock.name) == 1:      # serve_all's own wait, not one nested in a handler (whose failure is the
+                                                      # handler's failure and travels to the requester as such)
+            # the readiness call itself fails (EIO): not an end-of-stream; serve_all() must still close on its way out
+            self.fault_fired = (sock.name, op, f[1])
+            self.log("recvfault", sock.name)
+            return ("error", errno.EIO)
+        if f is not None and callno == f[0] and op in ("recv", "send") and f[1] != "pollerr" and self.fault_fired is None:
             self.fault_fired = (sock.name, op, f[1])
             if op == "recv":
                 self.log("recvfault", sock.name)
@@ -87,10 +114,8 @@ class Fixture(object):
         self.events.append({"call": call, "x": x, "cA": bool(p.a.conn.closed), "cB": bool(p.b.conn.closed),
                             "hA": self.hooks["A"], "hB": self.hooks["B"]})
 
-    def _wrap(self, side):
-        conn = side.conn
+    def _wrap_conn(self, name, conn):
         fx = self
-        name = side.name
         try:
             o_serve, o_close, o_areq = conn.serve, conn.close, conn.async_request
         except AttributeError:
@@ -155,7 +180,7 @@ CLOSE_ORDERS = ["single", "other-first", "both"]
 
 def run(chk, wname, fault=None, frag=None, timeout=None, close_order="single", judge=None, b_serve_all=False):
     """one execution; returns (events, outcomes, problems, n_transport_calls, ops)"""
-    fx = Fixture(fault=fault, frag=frag, timeout=timeout, b_serve_all=b_serve_all)
+    fx = Fixture(fault=fault, frag=frag, timeout=timeout, b_serve_all=b_serve_all, warm=wname in TRACEABLE)
     p = fx.pair
     problems = []
     outcomes = {}
@@ -439,11 +464,17 @@ def campaign(chk, wname, frag, timeout, orders, kinds, stride=1, b_serve_all=Fal
                                                                              "timeout": timeout, "close_order": "single"})
     traces = [events] if wname in TRACEABLE and white else []
     positions = [c for (c, side, op) in ops if op in ("recv", "send")]
+    if b_serve_all:
+        # the side that sits in serve_all() also meets failures of the readiness call (serve_all closes on every way out)
+        positions = sorted(positions + [c for (c, side, op) in ops if op == "poll" and side == "B"][::2])
+        kinds = tuple(kinds) + ("pollerr",)
     for order in orders:
         for pos in positions[::stride]:
             for kind in kinds:
                 opname = next(op for (c, s_, op) in ops if c == pos)
                 if kind == "eof" and opname != "recv":
+                    continue
+                if (kind == "pollerr") != (opname == "poll"):
                     continue
                 ev, outc, probs, _, _, _ = run(chk, wname, fault=(pos, kind), frag=frag, timeout=timeout, close_order=order,
                                                b_serve_all=b_serve_all)
@@ -454,7 +485,7 @@ def campaign(chk, wname, frag, timeout, orders, kinds, stride=1, b_serve_all=Fal
                         msg, wname, kind, pos, opname, frag, order),
                         {"workload": wname, "fault": [pos, kind], "frag": frag, "timeout": timeout, "close_order": order,
                          "b_serve_all": b_serve_all})
-                if wname in TRACEABLE and white:
+                if wname in TRACEABLE and white and kind != "pollerr":     # (the specification has no failing readiness call)
                     traces.append(ev)
                 if len(chk._distinct) % 200 == 0:
                     gc.collect()
@@ -856,7 +887,7 @@ def main():
         validate(chk, traces[i:i + 1500], "fault runs %d.." % (nval + i))
     chk.assumptions += [
         "faults are socket-level: recv raising ECONNRESET or returning end-of-stream, send raising EPIPE, at one transport "
-        "call per run (fragmented runs put them inside headers and bodies); poll() itself is not made to fail",
+        "call per run (fragmented runs put them inside headers and bodies); the readiness call (poll) is made to fail (EIO) only for a side that sits in serve_all(), whose every way out closes the connection",
         "each side is single-threaded and keeps serving while idle (as a server does); obligations are checked when a public "
         "call returns or raises; in addition 2-3 threads (and a background serving thread) share one connection whose stream "
         "ends at an arbitrary scheduling point (virtual time, requests without timeout)",
